@@ -237,9 +237,63 @@ var rawInputs = []string{"", " ", "\n", "{", "}", "[", "]", "{}", "[]", "null", 
 	"\xef\xbb\xbf{}", "/*c*/{}", "{} //x", "'a'", "{'a':1}", "NaN", "Infinity", "-Infinity", "0x10", "01", "1.", ".5", "+1", `{"!type":"x"}`, `{"!type":null}`, `{"!type":1}`,
 	`{"":1}`, `{"\u0000":1}`, `[null]`, `{"a":[null]}`, `{"a":{"b":null}}`, "\x00", "\xff\xfe", strings.Repeat("[", 3000), strings.Repeat(`{"a":`, 800), strings.Repeat("[", 2000) + strings.Repeat("]", 2000)}
 
+// expText: a number with an exponent beyond what the codec may expand (decimal exponents are limited to
+// +-4096 since /repo 158a5b4): lower- and upper-case marker, signed or not, small or huge.
+func expText(h *vh.H, huge bool) string {
+	mant := []string{"1", "3", "1.5", "-2", "0.1", "12345"}[h.Rng.IntN(6)]
+	mark := []string{"e", "E"}[h.Rng.IntN(2)]
+	sign := []string{"", "+", "-"}[h.Rng.IntN(3)]
+	exps := []string{"4097", "5000", "99999", "300000", "3000000"}
+	if huge {
+		exps = []string{"3000000", "20000000", "99158119", "2147483647"}
+	}
+	return mant + mark + sign + exps[h.Rng.IntN(len(exps))]
+}
+
+// genExponent: a decimal / float member (scalar, array element, map value, nested, query parameter) whose
+// number has a huge exponent, bare or quoted. The codec must reject the decimals (and out-of-range
+// floats) at once; a decoder that expands them produces megabytes from 20 bytes or runs for seconds.
+func (im *impl) genExponent(h *vh.H, huge bool, withEnv bool) string {
+	x := expText(h, huge)
+	v := x
+	if h.Rng.IntN(2) == 0 {
+		v = `"` + x + `"`
+	}
+	type tpl struct{ root, doc, qkey string }
+	tpls := []tpl{
+		{"g0.v1.All", `{"sDecimal":` + v + `}`, "sDecimal"},
+		{"g0.v1.All", `{"rDecimal":["1.5",` + v + `]}`, ""},
+		{"g0.v1.All", `{"mDecimal":{"k":` + v + `}}`, ""},
+		{"g0.v1.All", `{"sDouble":` + v + `}`, "sDouble"},
+		{"g0.v1.All", `{"sFloat":` + v + `}`, "sFloat"},
+		{"g0.v1.All", `{"rDouble":[` + v + `]}`, ""},
+		{"test.schema.v1.FullSchema", `{"decimal":` + v + `}`, "decimal"},
+		{"test.schema.v1.FullSchema", `{"sFloat":` + v + `}`, "sFloat"},
+	}
+	t := tpls[h.Rng.IntN(len(tpls))]
+	ts, md, err := setForRoot(t.root)
+	if err != nil {
+		return ""
+	}
+	env := "(env)"
+	if withEnv {
+		env = im.envFor(ts, md)
+	}
+	mode := pickMode(h)
+	h.Count("gen.exponent")
+	if t.qkey != "" && h.Rng.IntN(4) == 0 {
+		return qline(mode, env, t.root, [][]string{{t.qkey, x}}, newOra(), "")
+	}
+	b := []byte(t.doc)
+	return "dec " + mode + " " + env + " " + t.root + " " + vh.Hex(b) + " " + oraForDoc(b).String()
+}
+
 func (im *impl) genFuzz(h *vh.H, i int) string {
 	if i%5 == 4 {
 		return im.genFuzzQuery(h, i)
+	}
+	if i%25 == 11 {
+		return im.genExponent(h, false, true)
 	}
 	if i%40 == 7 {
 		// tokenizer differential
@@ -408,6 +462,10 @@ func (im *impl) genStress(h *vh.H, i int) string {
 		maxLen = 4 << 20
 	}
 	depth := 1000 + h.Rng.IntN(maxDepth)
+	if i%10 == 9 {
+		// numbers with huge exponents: must be rejected at once
+		return im.genExponent(h, true, false)
+	}
 	switch i % 9 {
 	case 0: // valid recursion through Tree.left
 		md = ts.byRoot["g1.v1.Tree"]
